@@ -36,7 +36,7 @@ class PathInfeasible(BaseException):
 class Engine:
     current = None
 
-    def __init__(self, timeout_ms=20000, max_paths=20000, max_int_fork=24):
+    def __init__(self, timeout_ms=20000, max_paths=20000, max_int_fork=64):
         self.timeout_ms = timeout_ms
         self.max_paths = max_paths
         self.max_int_fork = max_int_fork
